@@ -61,6 +61,10 @@ class Contracts:
             d = "<Option<usize> as PartialEq>::eq: structural (same variant, and equal payloads when Some) - the derived impl"
             self.used[d] = self.used.get(d, 0) + 1
             return self.opt_eq
+        if re.search(r"^(std::result::)?Result::<.*>::map_err::<", callee):
+            d = "Result::map_err keeps the variant: Ok(v) stays Ok(v), Err(e) becomes Err(f(e))"
+            self.used[d] = self.used.get(d, 0) + 1
+            return self.map_err
         if re.search(r"^<.* as PartialEq(<.*>)?>::ne$", callee):
             d = "PartialEq::ne(a, b) == !PartialEq::eq(a, b) (same symbol)"
             self.used[d] = self.used.get(d, 0) + 1
@@ -121,6 +125,19 @@ class Contracts:
         (sa, pa), (sb, pb) = self.opt_parts(ex, argv[0]), self.opt_parts(ex, argv[1])
         same = f"(= {pa} {pb})" if pa is not None and pb is not None else "true"
         return ("bool", f"(and (= {sa} {sb}) (=> {sa} {same}))")
+
+    def map_err(self, ex, callee, argv, argkey, ty, pc):
+        a = argv[0]
+        if a[0] == "enum" and a[1] == "Ok":
+            return a
+        if a[0] == "enum" and a[1] == "Err":
+            return ("enum", "Err", ("opq", f"{callee}({argkey})@Err.0"))
+        res = ("opq", f"{callee}({argkey})")
+        if a[0] == "opq":
+            da = ex.typed_fresh(f"discr({a[1]})", "isize")
+            dr = ex.typed_fresh(f"discr({res[1]})", "isize")
+            ex.ctx.assume("Result::map_err keeps the variant", f"(= {dr[1]} {da[1]})")
+        return res
 
     def then_some(self, ex, callee, argv, argkey, ty, pc):
         return ("option", argv[0][1], argv[1])
